@@ -245,6 +245,70 @@ theorem manyP_wb {len an p} (hp : WB len p) : WB len (manyP len an p) := by
     | (next v q1 hq1 => have := po _ _ _ hpos hq1; have := hl (len + 3) q1 [v] (by omega); grind)
     | grind
 
+/-! ### repetition with an arbitrary many-combiner (`many.rs ManyCombiner`)
+
+`ManyParser::parse` folds the maximal run of successes with `seed` / `accumulate`; the model's `manyCP` transcribes
+that loop.  It is `manyP` (the `Vec` of the run) followed by the fold — so outcome and position are those of `manyP`. -/
+
+/-- the fold `ManyParser::parse` computes over the run `vs` (`O::default()` on the empty run) -/
+def MCmb.fold (mc : MCmb) : List Val → Val
+  | [] => mc.dflt
+  | v :: vs => vs.foldl mc.acc (mc.seed v)
+
+/-- applies the fold to the `Vec` a successful `manyP` returns; errors and `hang` pass -/
+def finP (mc : MCmb) (p : P) : P := fun pos =>
+  match p pos with
+  | .ok v q => .ok (MCmb.fold mc v.asList) q
+  | r => r
+
+theorem asList_ofList : ∀ l : List Val, (Val.ofList l).asList = l
+  | [] => rfl
+  | v :: vs => by simp [Val.ofList, Val.asList, asList_ofList vs]
+
+theorem manyLoopC_eq (mc : MCmb) (p : P) : ∀ (fuel pos : Nat) (a : Val) (as : List Val),
+    manyLoopC mc p fuel pos (MCmb.fold mc (a :: as)) =
+      (match manyLoop p fuel pos (a :: as) with
+       | .ok v q => .ok (MCmb.fold mc v.asList) q
+       | r => r) := by
+  intro fuel
+  induction fuel with
+  | zero => intros; simp [manyLoopC, manyLoop]
+  | succ n ih =>
+    intro pos a as
+    simp only [manyLoopC, manyLoop]
+    cases h : p pos with
+    | ok v q =>
+      simp only []
+      have := ih q a (as ++ [v])
+      simp only [MCmb.fold, List.foldl_append, List.foldl_cons, List.foldl_nil, List.cons_append] at this ⊢
+      exact this
+    | soft e q => simp [asList_ofList]
+    | fatal e q => rfl
+    | hang => rfl
+
+/-- **the many-combiner layer is a fold over the run `many` collects** -/
+theorem manyCP_eq_fin (len : Nat) (mc : MCmb) (an : Bool) (p : P) :
+    manyCP len mc an p = finP mc (manyP len an p) := by
+  funext pos
+  simp only [manyCP, finP, manyP]
+  cases h : p pos with
+  | ok v q => simpa [MCmb.fold] using manyLoopC_eq mc p (len + 3) q v []
+  | soft e q => cases an <;> simp [MCmb.fold, Val.asList]
+  | fatal e q => rfl
+  | hang => rfl
+
+theorem finP_wb {len mc p} (hp : WB len p) : WB len (finP mc p) := by
+  obtain ⟨po, ps, pf⟩ := hp; contract [finP]
+
+theorem finP_mono {len mc p} (hp : Mono len p) : Mono len (finP mc p) := by
+  obtain ⟨po, ps, pf⟩ := hp; contract [finP]
+
+theorem manyCP_wb {len mc an p} (hp : WB len p) : WB len (manyCP len mc an p) := by
+  rw [manyCP_eq_fin]; exact finP_wb (manyP_wb hp)
+
+theorem manyCP_mono {len mc an p} (hp : Mono len p) : Mono len (manyCP len mc an p) := by
+  rw [manyCP_eq_fin]; exact finP_mono (manyP_mono hp)
+
 /-! ### delimited lists -/
 
 theorem delimLoop_mono {len am te p d} (hp : Mono len p) (hd : Mono len d)
@@ -397,7 +461,8 @@ def leavesWB : PExpr → Bool
   | .or2 a b => leavesWB a && leavesWB b
   | .or3 a b c => leavesWB a && leavesWB b && leavesWB c
   | .orNoBox l r => leavesWB l && leavesWB r
-  | .many _ e | .manyCtx _ e | .filter _ e | .filterMap _ e | .peek e | .toOption e | .orDefault e => leavesWB e
+  | .many _ e | .manyC _ _ e | .manyCtx _ e | .filter _ e | .filterMap _ e | .peek e | .toOption e
+  | .orDefault e => leavesWB e
   | .surround _ l m r => leavesWB l && leavesWB m && leavesWB r
   | .delimited _ _ e d => leavesWB e && leavesWB d
   | .seq2 a b => leavesWB a && leavesWB b
@@ -449,6 +514,7 @@ theorem run_wb (inp : List Nat) : ∀ e, LeavesWB e → WB inp.length (run e inp
   | .orNoBox l r, h => by
       simp [LeavesWB, leavesWB] at h; exact orNoBoxP_wb (run_wb inp l h.1) (run_wb inp r h.2)
   | .many an e, h => by simp [LeavesWB, leavesWB] at h; exact manyP_wb (run_wb inp e h)
+  | .manyC mc an e, h => by simp [LeavesWB, leavesWB] at h; exact manyCP_wb (run_wb inp e h)
   | .manyCtx an e, h => by simp [LeavesWB, leavesWB] at h; exact manyP_wb (run_wb inp e h)
   | .filter pr e, h => by simp [LeavesWB, leavesWB] at h; exact filterP_wb (run_wb inp e h)
   | .filterMap f e, h => by simp [LeavesWB, leavesWB] at h; exact filterMapP_wb (run_wb inp e h)
@@ -512,6 +578,7 @@ theorem run_mono (inp : List Nat) : ∀ e, Mono inp.length (run e inp)
   | .or3 a b c => orBoxP_mono _ _ (run_mono inp a) (mem2 (run_mono inp b) (run_mono inp c))
   | .orNoBox l r => orNoBoxP_mono (run_mono inp l) (run_mono inp r)
   | .many an e => manyP_mono (run_mono inp e)
+  | .manyC mc an e => manyCP_mono (run_mono inp e)
   | .manyCtx an e => manyP_mono (run_mono inp e)
   | .filter pr e => filterP_mono (run_mono inp e)
   | .filterMap f e => filterMapP_mono (run_mono inp e)
